@@ -136,7 +136,7 @@ var mcMenuTexts = []string{
 var kindMenus = map[string][]string{
 	"file": {"/foo rwk,", "/foo m,", "/srv/b rwk,", "@{bin}/foo mrix,", "/etc/a mrix,", "/foo r,", "/Foo r,", "/foo w,", "/foo rw,", "owner /foo r,", "audit /foo r,", "deny /foo r,", "/foo r, # note", "/foé r,", "/foè r,",
 		"@{bin}/foo r,", "@{bin}/foo rix,", "@{bin}/foo rPx -> t1,", "@{bin}/foo rPx -> t2,", "/srv/a r,", "/srv/b r,", "/etc/a r,", "@{HOME}/a r,", "/a r,", "/z r,",
-		"/dev/shm/a rw,", "/dev/a rw,", "@{run}/a r,", "/tmp/a r,", "@{lib}/a mr,", "/opt/a r,", "/usr/share/a r,", "/var/a r,"},
+		"\"/etc/a\" r,", "\"/srv/a\" r,", "\"/srv/a b\" r,", "/dev/shm/a rw,", "/dev/a rw,", "@{run}/a r,", "/tmp/a r,", "@{lib}/a mr,", "/opt/a r,", "/usr/share/a r,", "/var/a r,"},
 	"link":           {"link /a -> /b,", "link /a -> /c,", "link subset /a -> /b,", "owner link /a -> /b,", "deny link /a -> /b,", "link /A -> /b,"},
 	"capability":     {"capability chown,", "capability kill,", "capability chown kill,", "audit capability chown,", "deny capability chown,", "capability,"},
 	"network":        {"network inet stream,", "network inet dgram,", "network inet6 stream,", "network netlink raw,", "deny network inet stream,", "audit network inet stream,", "network inet,"},
@@ -147,14 +147,14 @@ var kindMenus = map[string][]string{
 	"change_profile": {"change_profile -> a,", "change_profile -> b,", "change_profile /x -> a,", "change_profile unsafe /x -> a,", "deny change_profile -> a,"},
 	"signal":         {"signal send set=hup peer=p,", "signal receive set=hup peer=p,", "signal send set=int peer=p,", "signal (send receive) set=hup peer=p,", "signal send set=(hup int) peer=p,", "signal send peer=p,", "signal send set=hup peer=q,", "signal send set=hup,", "deny signal send set=hup peer=p,", "signal,"},
 	"ptrace":         {"ptrace read peer=p,", "ptrace trace peer=p,", "ptrace read peer=q,", "ptrace (read trace) peer=p,", "ptrace peer=p,", "deny ptrace read peer=p,", "ptrace read,"},
-	"unix":           {"unix send type=stream,", "unix receive type=stream,", "unix send type=dgram,", "unix send type=stream addr=@a,", "unix send type=stream peer=(label=l),", "unix send type=stream peer=(label=m),", "unix send type=stream peer=(addr=@b),", "deny unix send type=stream,", "unix,"},
+	"unix":           {"unix send type=stream,", "unix receive type=stream,", "unix send type=dgram,", "unix send type=stream addr=@a,", "unix send type=stream addr=none,", "unix receive type=stream addr=none,", "unix send type=stream peer=(label=l, addr=none),", "unix send type=stream peer=(label=l),", "unix send type=stream peer=(label=m),", "unix send type=stream peer=(addr=@b),", "deny unix send type=stream,", "unix,"},
 	"dbus":           {"dbus send bus=session path=/a interface=i member=m peer=(name=n label=l),", "dbus receive bus=session path=/a interface=i member=m peer=(name=n label=l),", "dbus send bus=system path=/a interface=i member=m peer=(name=n label=l),", "dbus send bus=session path=/b interface=i member=m peer=(name=n label=l),", "dbus send bus=session path=/a interface=j member=m peer=(name=n label=l),", "dbus send bus=session path=/a interface=i member=k peer=(name=n label=l),", "dbus send bus=session path=/a interface=i member=m peer=(name=o label=l),", "dbus send bus=session path=/a interface=i member=m peer=(name=n label=q),", "dbus bind bus=session name=n,", "dbus bind bus=session name=o,", "deny dbus send bus=session path=/a interface=i member=m peer=(name=n label=l),"},
 	"rlimit":         {"set rlimit nofile <= 10,", "set rlimit nofile <= 20,", "set rlimit nproc <= 10,"},
 	"mqueue":         {"mqueue r type=posix /a,", "mqueue r type=posix /b,", "mqueue w type=posix /a,", "mqueue r type=sysv 1,", "mqueue r type=posix label=l /a,", "deny mqueue r type=posix /a,"},
 	"io_uring":       {"io_uring sqpoll label=a,", "io_uring override_creds label=a,", "io_uring sqpoll label=b,", "deny io_uring sqpoll label=a,", "io_uring sqpoll,"},
 	"userns":         {"userns,", "deny userns,", "audit userns,"},
 	"all":            {"all,", "deny all,", "audit all,"},
-	"include":        {"include <abstractions/base>", "include <abstractions/a>", "include <abstractions/b>", "include if exists <abstractions/a>", "include if exists <local/z>", "include \"/etc/x\""},
+	"include":        {"include <abstractions/base>", "include <abstractions/base-strict>", "include <abstractions/base.d/extra>", "include <abstractions/a>", "include <abstractions/b>", "include if exists <abstractions/a>", "include if exists <local/z>", "include \"/etc/x\""},
 }
 
 func kindsSorted() []string {
